@@ -31,6 +31,11 @@ def is_mono(host, pattern, m, node_attrs, edge_attrs):
         and forall(pattern.edges, lambda p, q: host.has_edge(m[p], m[q]) and edge_ok(host[m[p]][m[q]], pattern[p][q], edge_attrs))
 
 
+def is_inverse(m, iso):
+    """m (pattern -> host) is the inverse of iso (host -> pattern)"""
+    return forall(m, lambda p: m[p] in iso and same(iso[m[p]], p)) and forall(iso, lambda h: iso[h] in m)
+
+
 def hcounts_numeric(G):
     return forall(G.nodes, lambda n: isinstance(G.nodes[n].get("hcount", 0), (int, float)))
 
@@ -52,11 +57,85 @@ FUNCTIONS = {
             "implies(truthy(max_results), len(result) <= max_results)",
             "len(result) <= threshold or (truthy(max_results) and len(result) == max_results)",
         ],
-        "loops": {1: {"inv": [
+        "ghost_ensures": [
+            # the list is the inverted VF2 enumeration, in order, cut only by the limits
+            "forall(range(len(result)), lambda i: is_inverse(result[i], monos[i]))",
+            "implies(not truthy(max_results) and len(monos) <= threshold, len(result) == len(monos))",
+            "implies(not truthy(max_results) and len(monos) > threshold, len(result) == 0)",
+        ],
+        "loops": {1: {"seq_as": "monos", "inv": [
             "forall(range(len(results)), lambda i: is_mono(host, pattern, results[i], node_attrs, edge_attrs))",
             "len(results) == done",
+            "forall(range(len(results)), lambda i: is_inverse(results[i], monos[i]))",
             "len(results) <= threshold",
             "implies(truthy(max_results), len(results) < max_results)",
         ]}},
+    },
+    SM + "::SubgraphSearchEngine._find_all_subgraph_mappings.node_match": {
+        "params": {"nh": "dict[str,any]", "np": "dict[str,any]"},
+        "closure": {"node_attrs": "list[str]"}, "inline_calls": True,
+        "returns": "bool",
+        "requires": ["isinstance(nh.get('hcount', 0), (int, float))", "isinstance(np.get('hcount', 0), (int, float))"],
+        "ensures": ["result == node_ok(nh, np, node_attrs)"],
+    },
+    SM + "::SubgraphSearchEngine._find_all_subgraph_mappings.edge_match": {
+        "params": {"eh": "dict[str,any]", "ep": "dict[str,any]"},
+        "closure": {"edge_attrs": "list[str]"}, "inline_calls": True,
+        "returns": "bool",
+        "ensures": ["result == edge_ok(eh, ep, edge_attrs)"],
+    },
+    SM + "::SubgraphSearchEngine._find_component_aware_subgraph_mappings.node_match": {
+        "params": {"nh": "dict[str,any]", "np": "dict[str,any]"},
+        "closure": {"node_attrs": "list[str]"}, "inline_calls": True,
+        "returns": "bool",
+        "requires": ["isinstance(nh.get('hcount', 0), (int, float))", "isinstance(np.get('hcount', 0), (int, float))"],
+        "ensures": ["result == node_ok(nh, np, node_attrs)"],
+    },
+    SM + "::SubgraphSearchEngine._find_component_aware_subgraph_mappings.edge_match": {
+        "params": {"eh": "dict[str,any]", "ep": "dict[str,any]"},
+        "closure": {"edge_attrs": "list[str]"}, "inline_calls": True,
+        "returns": "bool",
+        "ensures": ["result == edge_ok(eh, ep, edge_attrs)"],
+    },
+    SM + "::SubgraphSearchEngine._find_component_aware_subgraph_mappings": {
+        # assumed here (connected components + recursive back-tracking are outside the engine); its soundness and
+        # completeness are checked by the bounded twin against brute force
+        "assumed": True,
+        "params": {"host": "obj:Graph", "pattern": "obj:Graph", "node_attrs": "list[str]", "edge_attrs": "list[str]",
+                   "max_results": ["const:None", "int"], "strict_cc_count": "bool", "threshold": "int"},
+        "returns": "list[dict[any,any]]",
+        "modifies": [],
+        "ensures": ["forall(range(len(result)), lambda i: is_mono(host, pattern, result[i], node_attrs, edge_attrs))",
+                    "implies(truthy(max_results) and max_results >= 0, len(result) <= max_results or len(result) <= threshold + 1)"],
+    },
+    STR + "::Strategy.from_string": {
+        "assumed": True,          # Enum lookup: 'all' / 'comp' / 'bt' / 'partial' map to the members with those values
+        "params": {"value": "str"},
+        "returns": "str",
+        "modifies": [],
+        "ensures": ["result == value"],
+    },
+    SM + "::SubgraphSearchEngine._find_bt_subgraph_mappings": {
+        "params": {"host": "obj:Graph", "pattern": "obj:Graph", "node_attrs": "list[str]", "edge_attrs": "list[str]",
+                   "max_results": ["const:None", "int"], "strict_cc_count": "bool", "threshold": "int"},
+        "returns": "list[dict[any,any]]",
+        "requires": ["hcounts_numeric(host)", "hcounts_numeric(pattern)", "threshold >= 0", "max_results is None or max_results >= 0"],
+        "modifies": [],
+        "ensures": ["forall(range(len(result)), lambda i: is_mono(host, pattern, result[i], node_attrs, edge_attrs))"],
+        # the fallback returns the component-aware result whenever that is non-empty
+        "ghost_ensures": ["implies(len(primary) > 0, same(result, primary))"],
+    },
+    SM + "::SubgraphSearchEngine.find_subgraph_mappings": {
+        "params": {"host": "obj:Graph", "pattern": "obj:Graph", "node_attrs": "list[str]", "edge_attrs": "list[str]",
+                   "strategy": ["const:'all'", "const:'comp'", "const:'bt'"], "max_results": ["const:None", "int"],
+                   "strict_cc_count": "bool", "threshold": ["const:None", "int"], "pre_filter": "const:False"},
+        "returns": "list[dict[any,any]]",
+        "requires": ["hcounts_numeric(host)", "hcounts_numeric(pattern)", "threshold is None or threshold >= 0",
+                     "max_results is None or max_results >= 0"],
+        "modifies": [],        # the inputs are not modified (the search runs on copies)
+        "ensures": [
+            "forall(range(len(result)), lambda i: old(is_mono(host, pattern, result[i], node_attrs, edge_attrs)))",
+            "len(result) <= (threshold if threshold is not None else 5000)",
+        ],
     },
 }
